@@ -26,13 +26,12 @@ Print Assumptions c08_parse_rename_only_name_and_len.
     [Bind::get_name] reads the old name. Guard: portal and old name survive from_utf8_lossy. *)
 Theorem c08_bind_rename_only_name_and_len : forall chk code l1 l2 l3 l4 portal old tail m,
   has0 portal = false -> has0 old = false -> has0 m = false ->
-  cleanb portal = true -> cleanb old = true ->
   let len := i32_of l1 l2 l3 l4 in
   in_i32 (len + blen m) = true -> 0 <= len + blen m - blen old < 2147483648 ->
   let buf := code :: l1 :: l2 :: l3 :: l4 :: portal ++ 0%N :: old ++ 0%N :: tail in
   rename_bind chk buf m = Ok (code :: be32 (len + blen m - blen old) ++ portal ++ 0%N :: m ++ 0%N :: tail)
   /\ splice_name 0 1 buf m = Some (code :: be32 (len + blen m - blen old) ++ portal ++ 0%N :: m ++ 0%N :: tail)
-  /\ bind_get_name buf = Ok old.
+  /\ bind_get_name buf = Ok (lossy old).
 Proof. exact bind_rename_splice. Qed.
 Print Assumptions c08_bind_rename_only_name_and_len.
 
@@ -69,7 +68,7 @@ Proof. exact hkey_inj. Qed.
 Print Assumptions c08_hkey_injective.
 
 Theorem c08_hstream_injective : forall q1 n1 t1 q2 n2 t2,
-  ~ In 255%N q1 -> ~ In 255%N q2 -> in_i16 n1 = true -> in_i16 n2 = true ->
+  Z.of_nat (length q1) < two64 -> Z.of_nat (length q2) < two64 -> in_i16 n1 = true -> in_i16 n2 = true ->
   forallb in_i32 t1 = true -> forallb in_i32 t2 = true ->
   Z.of_nat (length t1) < two64 -> Z.of_nat (length t2) < two64 ->
   hstream (q1, n1, t1) = hstream (q2, n2, t2) -> (q1, n1, t1) = (q2, n2, t2).
@@ -108,8 +107,8 @@ Proof. split; [vm_compute; reflexivity | vm_compute; discriminate]. Qed.
 (** The guards of the rename theorems are needed (each is a deviation from "only the name
     and the length change", with the concrete bytes):
     F8a — a Parse with bytes after the parameter types is silently trimmed;
-    F8  — query text that is not UTF-8 (any non-UTF-8 client_encoding) is rewritten;
-    F8b — Bind::rename with a non-UTF-8 statement name emits a wrong length field. *)
+    (F8 query text rewritten and F8b Bind::rename length: repaired by a7561f2 / 15e9536, see the
+    regressions below; statement names are still keyed by their lossy rendering.) *)
 Definition parse_a_sel1 (extra : bytes) : bytes :=   (* P, len, "a\0", "SELECT 1\0", 0 types, extra *)
   [80]%N ++ be32 (4 + 2 + 9 + 2 + blen extra) ++ [97;0; 83;69;76;69;67;84;32;49;0; 0;0]%N ++ extra.
 
@@ -121,17 +120,25 @@ Example c08_parse_trailing_bytes_dropped :
               splice_name 0 0 b [120%N] = Some sp /\ beq_bytes sp e = false /\ blen sp = blen e + 3 /\ parse_canonical b = false.
 Proof. cbv zeta. do 3 eexists. split; [vc|]. split; [vc|]. split; [vc|]. split; [vc|]. split; vc. Qed.
 
-Example c08_parse_non_utf8_query_rewritten :   (* "SELECT 'é'" in LATIN1: E9 becomes EF BF BD *)
+(* regression (a7561f2): query text that is not UTF-8 ("SELECT 'é'" in LATIN1) is kept byte for byte *)
+Example c08_fixed_parse_non_utf8_query_kept :
   let b := [80]%N ++ be32 18 ++ [0; 83;69;76;69;67;84;32;39;233;39;0; 0;0]%N in
-  exists p, decode_parse b = Ok p /\ p_query p = [83;69;76;69;67;84;32;39;239;191;189;39]%N /\ parse_canonical b = false.
-Proof. cbv zeta. eexists. split; [vc|]. split; vc. Qed.
+  exists p e, decode_parse b = Ok p /\ p_query p = [83;69;76;69;67;84;32;39;233;39]%N /\ parse_canonical b = true /\
+              encode_parse true (rename_parse p [120%N]) = Ok e /\ splice_name 0 0 b [120%N] = Some e.
+Proof. cbv zeta. do 2 eexists. split; [vc|]. split; [vc|]. split; [vc|]. split; vc. Qed.
 
-Example c08_bind_rename_non_utf8_name_wrong_length :   (* portal "", statement name FF *)
-  let b := [66]%N ++ be32 13 ++ [0; 255;0; 0;0;0;0;0;0]%N in
+(* regression (15e9536): Bind::rename with a non-UTF-8 statement name (FF) and portal (FE) is the splice *)
+Example c08_fixed_bind_rename_non_utf8 :
+  let b := [66]%N ++ be32 14 ++ [254;0; 255;0; 0;0;0;0;0;0]%N in
   let m := [80;71;67;65;84;95;49]%N in
-  exists out sp, rename_bind true b m = Ok out /\ splice_name 0 1 b m = Some sp /\ beq_bytes out sp = false /\
-                 blen out - 1 = 19 /\ firstn 4 (skipn 1 out) = be32 17 /\ firstn 4 (skipn 1 sp) = be32 19.
-Proof. cbv zeta. do 2 eexists. split; [vc|]. split; [vc|]. split; [vc|]. split; [vc|]. split; vc. Qed.
+  exists out, rename_bind true b m = Ok out /\ splice_name 0 1 b m = Some out /\ firstn 4 (skipn 1 out) = be32 20 /\ blen out - 1 = 20.
+Proof. cbv zeta. eexists. split; [vc|]. split; [vc|]. split; vc. Qed.
+
+(* residual (known F8-lossy-utf8): statement NAMES are still keyed by their lossy rendering — two
+   different names of one client can read as the same name *)
+Example c08_names_still_lossy :
+  parse_get_name ([80]%N ++ be32 8 ++ [233;0; 0; 0;0]%N) = parse_get_name ([80]%N ++ be32 8 ++ [232;0; 0; 0;0]%N).
+Proof. vm_compute. reflexivity. Qed.
 
 (** Latent (the Bind encoder is not on pgcat's runtime path; the Parse encoder is):
     [as usize] of NULL's -1 or of a negative count overflows — a panic with overflow checks,
